@@ -115,20 +115,30 @@ def generate(rng, tier, index):
             if rng.random() < 0.06:
                 # request targets that are not an absolute path: the asterisk form, a relative reference
                 path = rng.choice(["*", "*", _w(rng, 1, 10) + ".html", _w(rng, 1, 6) + ".php/" + _w(rng, 0, 4), _w(rng, 1, 12, _TOKEN + "./~")])
-            msgs.append({"type": "req", "method": hx(_w(rng, 1, 8, _TOKEN.replace("_", "")).encode()), "path": hx(path.encode()),
+            method = _w(rng, 1, 8, _TOKEN.replace("_", "")).encode()
+            if rng.random() < 0.06:
+                # extension methods are opaque tokens: bytes >= 0x80 and control characters other than space / CR / LF belong to them
+                method = rng.choice([b"M\xc3\x89THODE", b"\xff", b"GET\x1f", b"PRO\x1cPFIND", b"\xe4\xbd\xa0", b"A\x85B", b"X\xa0Y"])
+            msgs.append({"type": "req", "method": hx(method), "path": hx(path.encode()),
                          "params": params, "headers": _headers(rng), "body": hx(_body(rng)), "plus": rng.random() < 0.5,
                          # reserved characters the sender leaves unencoded inside the query (legal per RFC 3986)
                          "raw_safe": hx(bytes(sorted(set(rng.sample(list(b"?/:@!$'()*,;="), rng.choice([0, 0, 1, 3, 13])))))),
                          "lower_hex": rng.choice([0, 0, 1, 2])})
         elif r < 0.8:
             msgs.append({"type": "resp", "status": rng.choice([100, 200, 204, 301, 404, 500, 599, rng.randint(100, 599)]),
-                         "reason": hx(rng.choice([b"OK", b"Not-Found", _w(rng, 1, 10).encode(), bytes([rng.randint(0x21, 0x7E)])])),
+                         "reason": hx(rng.choice([b"OK", b"Not-Found", _w(rng, 1, 10).encode(), bytes([rng.randint(0x21, 0x7E)]),
+                                                  # single tokens that are not ASCII text
+                                                  rng.choice([b"Pr\xe9condition", b"\xe4\xbd\xa0\xe5\xa5\xbd", b"\xff\xfe", b"a\x1fb", b"a\x1cb",
+                                                              b"\x85", b"N\xa0F", b"\x80"])])),
                          "version": rng.choice(["HTTP/1.1", "HTTP/1.0", "http/1.1", "HTTP/2"]),
                          "headers": _headers(rng), "body": hx(_body(rng))})
         else:
             line = rng.choice([b"", b"GET", b"GET /x", b"GET /x HTTP/1.1 extra", b"A B C D E", b"HTTP/1.1", b"HTTP/1.1 200",
                                b"HTTP/1.1 200 OK extra", b"HTTP/1.1 abc OK", b"http/1.0 2x0 OK", b"HTTP/1.1 \xff OK", b" ",
-                               b"HTTP/", b"/x HTTP/1.1", _w(rng, 1, 6).encode(), (_w(rng, 1, 4) + " " + _w(rng, 1, 4)).encode()])
+                               b"HTTP/", b"/x HTTP/1.1", _w(rng, 1, 6).encode(), (_w(rng, 1, 4) + " " + _w(rng, 1, 4)).encode(),
+                               # two parts only: the separators of str.split() that are not a space do not separate
+                               b"GET\x1f/x HTTP/1.1", b"GET /x\x1cHTTP/1.1", b"HTTP/1.1\x1d200 OK", b"GET\x85/x HTTP/1.1",
+                               b"GET\xa0/x HTTP/1.1"])
             msgs.append({"type": "malformed", "line": hx(line), "headers": _headers(rng), "body": hx(_body(rng))})
     return {"world": "S-http", "messages": msgs}
 
